@@ -24,7 +24,7 @@ RULE = ("(M) exhaustive TLC runs of Series.tla: all add orders of all consistent
         "universe (value twins and unit/table/benchmark symmetry reduced), every permutation of trials and tests in Finalize, "
         "both policies; invariants TypeOK, TablesOK, OrderFree, HashPairsFunctional; SeriesDates_mc.tla: DatesCanonical for "
         "every ordered pair of the timestamp grid. (G) one replay case per generated set and policy, each run in ALL "
-        "permutations of the set (n <= 5; 60 seeded permutations for simulated sets of 7), three styles (one Result per record, "
+        "permutations of the set (n <= 4, i.e. the whole quick tier; 40 seeded permutations incl. identity and reversal for the sets of 5 and the simulated sets of 7 of the thorough tier), three styles (one Result per record, "
         "multi-unit Results, files through AddFiles), AllComparisonSeries called 4 times per builder, every result compared "
         "with Expected and with the first result; one case per grid timestamp plus one order case over the whole grid; "
         "AddSummaries over a (confidence x resamples x sample size) grid (auxiliary). "
@@ -103,7 +103,7 @@ def run(ctx):
     orders = 0
     for c in sets:
         n = len(c["recs"])
-        perms = math.factorial(n) if n <= 5 else 60
+        perms = math.factorial(n) if n <= 4 else 40
         if c["expect"]["replace"] != c["expect"]["combine"]:
             nontriv += 1
         for pol in ("replace", "combine"):
